@@ -1,6 +1,7 @@
 package object
 
 import (
+	"fmt"
 	"reflect"
 )
 
@@ -61,7 +62,16 @@ func nativeMapToObject(val any) Object {
 	valValue := reflect.ValueOf(val)
 
 	for _, key := range valValue.MapKeys() {
-		obj.Pairs[key.String()] = NativeToObject(valValue.MapIndex(key).Interface())
+		name := key.String()
+
+		// String() of a non-string key is the same placeholder for every
+		// key ("<int Value>"), so the entries would overwrite each other
+		// in the random order of map iteration
+		if key.Kind() != reflect.String {
+			name = fmt.Sprint(key.Interface())
+		}
+
+		obj.Pairs[name] = NativeToObject(valValue.MapIndex(key).Interface())
 	}
 
 	return obj
